@@ -1,5 +1,5 @@
 (* Proofs/ViewsLen.v -- generated: T_len_only for every view type, from T_spec (Proofs/ViewsBase.len_only_of_spec). *)
-From PV Require Import Proofs.ViewsBase Proofs.Views Proofs.Views2 Proofs.Views3 Proofs.Views4.
+From PV Require Import Proofs.ViewsBase Proofs.Views Proofs.Views2 Proofs.Views3 Proofs.Views4 Proofs.Views6.
 Lemma ARP_len_only v v' : wf v -> wf v' -> bytes_ok (arr v) -> bytes_ok (arr v') ->
   ARP_IsValid v = Ok true -> ARP_IsValid v' = Ok true -> view v = view v' -> getters_len_only [] ARP_getters ARP_specs v v'.
 Proof. intros. eapply len_only_of_spec; eauto using ARP_spec. Qed.
